@@ -108,34 +108,6 @@ def report(ctx, pid, recs, model, props, what, relevant=None, extra_cov=None, as
 
 
 def replay(ctx, pid, obj):
-    """re-execute a stored scenario against /repo's current code and the model"""
-    import time as _t
-    r = obj["replay"]
-    req = r["request"]
-    wd = os.path.join(ctx.work, "sc")
-    os.makedirs(wd, exist_ok=True)
-    scen = {"root": req["root"], "dir": req["dir"], "keys": req["keys"], "params": req["params"],
-            "now_us": req["now_us"], "tags": r.get("tags", []), "logpath": os.path.join(wd, "insp.log")}
-    # inspection commands mention the log path of the original run: point them at the new one
-    old_log = None
-    import re as _re
-    m = _re.search(r">> (\S+insp\.log)", json.dumps(req))
-    if m:
-        old_log = m.group(1)
-        scen = json.loads(json.dumps(scen).replace(old_log, scen["logpath"]))
-        req = json.loads(json.dumps(req).replace(old_log, scen["logpath"]))
-        scen["logpath"] = os.path.join(wd, "insp.log")
-    outs, exec_table = vscen.run_impl(scen, wd)
-    req["exec"] = exec_table
-    model = core.Model()
-    a = model.batch([("verify", req)])[0]
-    mo = vscen.norm_model_outcome(a) if isinstance(a, dict) else {"err": "driver"}
-    d = vscen.compare(outs[0], mo)
-    print("impl :", {k: v for k, v in outs[0].items() if k != "ok"} or "accept", "" if "ok" not in outs[0] else "(accept)")
-    print("model:", {k: v for k, v in mo.items() if k != "ok"}, "" if "ok" not in mo else "(accept)")
-    if d and d != "unmodelled":
-        print("  -> " + d)
-        print("VIOLATION property=%s replay=%s" % (pid, obj.get("rerun", "").split()[-1]))
-        return 1
-    print("agree")
-    return 0
+    """re-execute a stored scenario against /repo's current code and the model.
+    (vscen.replay keeps the stored inspection-log path: it is part of signed content and must not be rewritten)"""
+    return vscen.replay(ctx, pid, obj)
